@@ -13,11 +13,18 @@ ALPHA = ('abcXYZ019 ,.;:!?-_()[]{}\'"#%&*+/<=>@\\^|~`$' + '\t\n\r\x00\x01\x1f\x7
          '\U00020000\U00020bb7\U0002a6d6')      # CJK letters beyond the Basic Multilingual Plane: one character each, two UTF-16 units
 
 
+DQ, SQ = chr(34) * 2, chr(39) * 2
+
+
 def rs(rnd, n=None, maxlen=60):
     n = rnd.randint(0, rnd.choice([4, 12, 30, maxlen])) if n is None else n
     if rnd.random() < 0.25:
         return ''.join(rnd.choice('ab  \t') for _ in range(n))
-    return ''.join(rnd.choice(ALPHA if rnd.random() < 0.7 else 'ab ') for _ in range(n))
+    out = ''.join(rnd.choice(ALPHA if rnd.random() < 0.7 else 'ab ') for _ in range(n))
+    if n >= 2 and rnd.random() < 0.04:
+        k = rnd.randrange(n - 1)
+        out = out[:k] + rnd.choice([DQ, SQ, chr(92) * 2, DQ * 2]) + out[k + 2:]      # doubled delimiters and backslashes: characters like any other
+    return out
 
 
 def substitute(text, old, new, k=None):
@@ -105,9 +112,14 @@ class Check(FormulaCheck):
         la, lb, lab = self.ev('LEN(v_a)', v_a=s), self.ev('LEN(v_b)', v_b=t2), self.ev('LEN(v_a&v_b)', v_a=s, v_b=t2)
         self.expect('C15/LEN', la == len(s) and lb == len(t2), a=s, b=t2, got=(la, lb), expected=(len(s), len(t2)))
         self.expect('C15/LEN(a&b)=LEN(a)+LEN(b)', lab == len(s) + len(t2), a=s, b=t2, got=lab)
-        if '"' not in s and rnd.random() < 0.3:
-            g = self.ev('LEN(%s)' % hx.strlit(s))
-            self.expect('C15/LEN', g == len(s), s=s, got=g, literal=True)
+        lit = hx.strlit(s)
+        if lit is not None and (rnd.random() < 0.3 or DQ in s or SQ in s):
+            # written as a literal of whichever quote kind can hold it (a text with a quotation mark goes between apostrophes): every character counts
+            g = self.ev('LEN(%s)' % lit)
+            self.expect('C15/LEN', g == len(s), s=s, got=g, literal=lit[:1])
+            if s and not s.endswith(chr(92)):       # (a literal ending in a backslash that is followed by another literal is C05's open finding)
+                j = self.ev('LEFT(%s,1)&RIGHT(%s,LEN(%s)-1)' % (lit, lit, lit))
+                self.expect('C15/LEFT&RIGHT=s', j == s, s=s, n=1, got=j, literal=lit[:1])
 
     def casefuncs(self, rnd, s):
         rec = self.rec
